@@ -9,7 +9,7 @@ import random
 import sys
 from abc import ABCMeta, abstractmethod
 from contextlib import contextmanager
-from types import CodeType, FrameType
+from types import CodeType, FrameType, FunctionType, MethodType
 from typing import Any, Callable, Dict, Iterator, Optional, Set, Union, cast
 
 import opcode
@@ -107,11 +107,13 @@ def get_func_in_mro(obj: Any, code: CodeType) -> Optional[Callable[..., Any]]:
     val = inspect.getattr_static(obj, code.co_name, None)
     if val is None:
         return None
-    if isinstance(val, (classmethod, staticmethod)):
+    # type(val), not isinstance(): isinstance() may consult val.__class__
+    val_type = type(val)
+    if issubclass(val_type, (classmethod, staticmethod)):
         cand = val.__func__
-    elif isinstance(val, property) and (val.fset is None) and (val.fdel is None):
+    elif issubclass(val_type, property) and (val.fset is None) and (val.fdel is None):
         cand = cast(Callable[..., Any], val.fget)
-    elif cached_property and isinstance(val, cached_property):
+    elif cached_property and issubclass(val_type, cached_property):
         cand = val.func
     else:
         cand = cast(Callable[..., Any], val)
@@ -122,11 +124,14 @@ def _has_code(
     func: Optional[Callable[..., Any]], code: CodeType
 ) -> Optional[Callable[..., Any]]:
     while func is not None:
-        func_code = getattr(func, "__code__", None)
-        if func_code is code:
+        # Candidates are arbitrary objects of the traced program (globals and
+        # locals of calling frames): only look at attributes in ways that
+        # cannot run their attribute hooks or descriptors.
+        target = func.__func__ if type(func) is MethodType else func
+        if type(target) is FunctionType and target.__code__ is code:
             return func
         # Attempt to find the decorated function
-        func = getattr(func, "__wrapped__", None)
+        func = inspect.getattr_static(target, "__wrapped__", None)
     return None
 
 
@@ -160,7 +165,7 @@ def get_func(frame: FrameType) -> Optional[Callable[..., Any]]:
     # try looking at classes in global scope.
     if func is None:
         for v in frame.f_globals.values():
-            if not isinstance(v, type):
+            if not issubclass(type(v), type):
                 continue
             func = get_func_in_mro(v, code)
             if func is not None:
